@@ -133,3 +133,17 @@ Print Assumptions C05_bad_end_rejected.
 Theorem C05_builtin_table_positive : tbl_pos builtin_table.
 Proof. apply tbl_posb_ok. vm_compute. reflexivity. Qed.
 Print Assumptions C05_builtin_table_positive.
+
+(* the same for text: a program that parse_expression accepts lexes without error and its token sequence is a sentence of
+   the grammar with that tree (tokenizer: tiling and exact text, C10; parser: no junk) *)
+Theorem C05_text_grammar_sound : forall tbl s t, tbl_pos tbl -> api_parse tbl s = Ok t ->
+  exists toks, lex tbl s = (toks, TmEof) /\ Gprog tbl (map tk toks) t.
+Proof.
+  intros tbl s t P H. unfold api_parse in H. destruct (lex tbl s) as [toks tm] eqn:E.
+  destruct tm.
+  - exists toks. split; [reflexivity|]. exact (parse_sound tbl P (map tk toks) t H).
+  - exfalso. exact (lex_error_rejected tbl TmErr ltac:(discriminate) (map tk toks) t H).
+  - exfalso. destruct (tiled_term tbl toks 0 s TmPanic (lex_tiled tbl s toks TmPanic E)) as [X _]. apply X. reflexivity.
+  - exfalso. destruct (tiled_term tbl toks 0 s TmFuel (lex_tiled tbl s toks TmFuel E)) as [_ X]. apply X. reflexivity.
+Qed.
+Print Assumptions C05_text_grammar_sound.
